@@ -37,21 +37,24 @@ META = {
         "forwards and backwards with parent back-pointer; every value's / block's use list is exactly the "
         "(user, index) occurrences in operand / successor lists of live ops; result/argument indices match). "
         "Theorems in coq/Props/C01.v (all closed, no axioms): wf_b_sound (the boolean checker implies WF); the empty "
-        "heap is WF; for EVERY state, argument and index, WF is preserved by a non-raising call of "
-        "the Operation.operands setter, OpOperands.__setitem__, OpSuccessors.__setitem__ (negative indices included, code after fix f198beb), "
-        "SSAValue.replace_all_uses_with, replace_uses_with_if, erase, PatternRewriter.replace_all_uses_with / "
-        "replace_uses_with_if, Block.insert_op_after, Block.insert_op_before, Block.add_op, Block.detach_op, Operation.detach, "
-        "Region.detach_block (block or index) and, for a single block, Region.add_block / insert_block_before / Rewriter.insert_block "
-        "(IRWithUses.add_use/remove_use are proved as pointer lemmas against the use-list invariant); C01_history: "
-        "every finite history of these calls on live arguments, none raising, keeps WF; refutation witnesses for the "
+        "heap satisfies the invariant; for EVERY state and argument, a non-raising call of 46 of the 55 modelled API "
+        "constructors preserves WF: PROVED = Operation.create, Block(...), Region(...), Builder.create_block; the operands "
+        "and successors setters, OpOperands/OpSuccessors.__setitem__ (any index, code after fix f198beb), "
+        "SSAValue.replace_all_uses_with / replace_uses_with_if / erase and the PatternRewriter versions; Block.insert_arg / "
+        "erase_arg and PatternRewriter.insert_block_argument / erase_block_argument; Block.insert_op_after / insert_op_before / "
+        "add_op / add_ops / insert_ops_before / insert_ops_after / detach_op, Operation.detach, Rewriter.insert_op; "
+        "Region.add_block / insert_block_before / insert_block_after / insert_block (lists of any length), Rewriter.insert_block, "
+        "Region.detach_block (block or index), Region.move_blocks / move_blocks_before, Rewriter.inline_region / "
+        "move_region_contents_to_new_regions; Operation.add_region / detach_region (region or index); and Operation.erase / "
+        "Block.erase_op / Rewriter.erase_op restricted to operations WITHOUT regions. C01_history: every finite history of "
+        "these calls on live arguments, none raising, keeps the invariant (WF + an auxiliary 'parent pointers name allocated "
+        "ids' clause needed by creation), in particular every such history from the empty heap; refutation witnesses for the "
         "two repaired defects (old code) and for the three classes of raising calls that leave partial mutations. "
-        "PARTIAL: all other modelled mutators (creation, the successors setter, erase of ops/blocks/regions, "
-        "insert_arg/erase_arg, add_ops/insert_ops_*, split_before, block-list calls with several blocks, "
-        "insert_block_after, insert_block, move_blocks*, add/detach_region, "
-        "drop_all_references, all Rewriter and PatternRewriter calls, Builder.create_block) are NOT proved; they are "
-        "covered by the tie: model and real code run in lock-step on generated histories, every heap record that "
-        "changes is compared after every call, and the proved-sound checker wf_b is evaluated on the model state and "
-        "compared with an independent whole-tree oracle on the real objects after every call."),
+        "PARTIAL -- NOT PROVED, covered only by the tie: erase of an operation with regions, Block.erase, Region.erase_block, "
+        "Region.erase, public drop_all_references, Block.split_before, Rewriter.replace_op, PatternRewriter.replace, "
+        "Rewriter.replace_value_with_new_type, Rewriter.inline_block. The tie: model and real code run in lock-step on "
+        "generated histories, every heap record that changes is compared after every call, and the proved-sound checker wf_b "
+        "is evaluated on the model state and compared with an independent whole-tree oracle on the real objects after every call."),
     "level_note": (
         "Trusted: Coq kernel (vm_compute for the Examples and the case evaluation); the hand-written model "
         "coq/C01/Model.v (one Gallina function per public mutator of xdsl/ir/core.py, xdsl/rewriter.py, "
@@ -67,7 +70,7 @@ META = {
         "and code but a failure of only these clauses is reported in the evidence, not as a property violation."),
 }
 COQ_TARGETS = ["C01/Enc.vo", "C01/ProofsWfb.vo", "C01/ProofsOperands.vo", "C01/ProofsRauw.vo", "C01/ProofsSetOperands.vo", "C01/ProofsSetSuccessors.vo", "C01/ProofsOps.vo", "C01/ProofsBlocks.vo",
-               "C01/ProofsOpRegions.vo", "C01/ProofsMove.vo", "C01/ProofsOpLists.vo", "C01/ProofsBlockLists.vo", "C01/ProofsArgs.vo", "C01/ProofsCreate.vo", "C01/ProofsInv.vo", "C01/ProofsHistory.vo",
+               "C01/ProofsOpRegions.vo", "C01/ProofsMove.vo", "C01/ProofsOpLists.vo", "C01/ProofsBlockLists.vo", "C01/ProofsArgs.vo", "C01/ProofsCreate.vo", "C01/ProofsInv.vo", "C01/ProofsErase.vo", "C01/ProofsReplaceType.vo", "C01/ProofsHistory.vo",
                "C01/ProofsDemo.vo", "Props/C01.vo"]
 REQ = ["C01.Model", "C01.Spec", "C01.Enc"]
 ASSUMPTIONS = [
